@@ -15,8 +15,8 @@ import (
 	"encoding/json"
 	"fmt"
 	"go/ast"
-	"go/printer"
 	"go/parser"
+	"go/printer"
 	"go/token"
 	"os"
 	"path/filepath"
@@ -213,6 +213,55 @@ func instrument(fset *token.FileSet, f *ast.File, fname string, globals map[stri
 		}
 		return true
 	})
+	// pass 1b: blocking primitives become cooperative shims so that waiting is visible to the scheduler
+	usesSync := false
+	ast.Inspect(f, func(n ast.Node) bool {
+		rewrite := func(e *ast.Expr) {
+			if se, ok := (*e).(*ast.SelectorExpr); ok {
+				if x, ok := se.X.(*ast.Ident); ok && x.Name == "sync" {
+					usesSync = true
+					switch se.Sel.Name {
+					case "Mutex":
+						*e = ast.NewIdent("VerifMutex")
+					case "RWMutex":
+						*e = ast.NewIdent("VerifRWMutex")
+					case "Once":
+						*e = ast.NewIdent("VerifOnce")
+					}
+				}
+			}
+		}
+		switch v := n.(type) {
+		case *ast.Field:
+			rewrite(&v.Type)
+		case *ast.ValueSpec:
+			if v.Type != nil {
+				rewrite(&v.Type)
+			}
+		case *ast.CompositeLit:
+			if v.Type != nil {
+				rewrite(&v.Type)
+			}
+		case *ast.StarExpr:
+			rewrite(&v.X)
+		case *ast.ArrayType:
+			rewrite(&v.Elt)
+		case *ast.MapType:
+			rewrite(&v.Value)
+		case *ast.TypeSpec:
+			rewrite(&v.Type)
+		case *ast.CallExpr:
+			// new(sync.Mutex)
+			for i := range v.Args {
+				rewrite(&v.Args[i])
+			}
+		}
+		return true
+	})
+	if usesSync {
+		// keep the import used even if every reference was rewritten
+		f.Decls = append(f.Decls, &ast.GenDecl{Tok: token.VAR, Specs: []ast.Spec{&ast.ValueSpec{Names: []*ast.Ident{ast.NewIdent("_")}, Type: &ast.SelectorExpr{X: ast.NewIdent("sync"), Sel: ast.NewIdent("Locker")}}}})
+	}
 	// pass 2: function entries and loop bodies
 	ast.Inspect(f, func(n ast.Node) bool {
 		switch v := n.(type) {
@@ -292,6 +341,122 @@ func verifStep() {
 	}
 }
 
+// VerifBlockHook is called when the running thread cannot proceed (lock held by another
+// thread); the scheduler must run another thread. Without a scheduler the shims fall back to
+// the real primitives.
+var VerifBlockHook func()
+
+// VerifMutex replaces sync.Mutex in the instrumented copy.
+type VerifMutex struct {
+	held bool
+	real sync.Mutex
+}
+
+func (m *VerifMutex) Lock() {
+	if VerifBlockHook == nil {
+		m.real.Lock()
+		return
+	}
+	verifPoint("lock")
+	for m.held {
+		VerifBlockHook()
+	}
+	m.held = true
+}
+
+func (m *VerifMutex) TryLock() bool {
+	if VerifBlockHook == nil {
+		return m.real.TryLock()
+	}
+	if m.held {
+		return false
+	}
+	m.held = true
+	return true
+}
+
+func (m *VerifMutex) Unlock() {
+	if VerifBlockHook == nil {
+		m.real.Unlock()
+		return
+	}
+	m.held = false
+	verifPoint("unlock")
+}
+
+// VerifRWMutex replaces sync.RWMutex.
+type VerifRWMutex struct {
+	writer  bool
+	readers int
+	real    sync.RWMutex
+}
+
+func (m *VerifRWMutex) Lock() {
+	if VerifBlockHook == nil {
+		m.real.Lock()
+		return
+	}
+	verifPoint("lock")
+	for m.writer || m.readers > 0 {
+		VerifBlockHook()
+	}
+	m.writer = true
+}
+
+func (m *VerifRWMutex) Unlock() {
+	if VerifBlockHook == nil {
+		m.real.Unlock()
+		return
+	}
+	m.writer = false
+	verifPoint("unlock")
+}
+
+func (m *VerifRWMutex) RLock() {
+	if VerifBlockHook == nil {
+		m.real.RLock()
+		return
+	}
+	verifPoint("rlock")
+	for m.writer {
+		VerifBlockHook()
+	}
+	m.readers++
+}
+
+func (m *VerifRWMutex) RUnlock() {
+	if VerifBlockHook == nil {
+		m.real.RUnlock()
+		return
+	}
+	m.readers--
+	verifPoint("runlock")
+}
+
+// VerifOnce replaces sync.Once.
+type VerifOnce struct {
+	done    bool
+	running bool
+	real    sync.Once
+}
+
+func (o *VerifOnce) Do(f func()) {
+	if VerifBlockHook == nil {
+		o.real.Do(f)
+		return
+	}
+	verifPoint("once")
+	for o.running {
+		VerifBlockHook()
+	}
+	if o.done {
+		return
+	}
+	o.running = true
+	defer func() { o.done, o.running = true, false }()
+	f()
+}
+
 func verifDump(b *strings.Builder, name string, v interface{}) {
 	b.WriteString(name)
 	b.WriteByte('=')
@@ -340,7 +505,7 @@ func VerifGlobals() string {
 	var b strings.Builder
 `)
 	for _, g := range globals {
-		if g == "VerifStepHook" || g == "VerifYieldHook" {
+		if g == "VerifStepHook" || g == "VerifYieldHook" || g == "VerifBlockHook" {
 			continue
 		}
 		fmt.Fprintf(&b, "\tverifDump(&b, %q, &%s)\n", g, g)
